@@ -1,0 +1,56 @@
+//go:build verif
+
+package lua
+
+import "net"
+
+// Pure specification functions used by the contracts in zz_contracts_verif.go.
+
+func vqForall(lo int, hi int, f func(int) bool) bool {
+	for i := lo; i < hi; i++ {
+		if !f(i) {
+			return false
+		}
+	}
+	return true
+}
+
+func vqExists(lo int, hi int, f func(int) bool) bool {
+	for i := lo; i < hi; i++ {
+		if f(i) {
+			return true
+		}
+	}
+	return false
+}
+
+func specValidIP(s string) bool { return net.ParseIP(s) != nil }
+
+func specInNet(n *net.IPNet, ip string) bool { return n.Contains(net.ParseIP(ip)) }
+
+// specTrustedPeer: forwarded headers of a TCP peer may be honoured only if the peer address is a valid IP and either
+// no trusted-proxy list was configured at all (cidrs == nil) or the peer lies inside one of the configured networks.
+// A configured list of which no entry is usable is an empty, non-nil list: it trusts nobody.
+func specTrustedPeer(remoteIP *string, cidrs []*net.IPNet) bool {
+	if remoteIP == nil || !specValidIP(*remoteIP) {
+		return false
+	}
+	if cidrs == nil {
+		return true
+	}
+	return vqExists(0, len(cidrs), func(k int) bool { return specInNet(cidrs[k], *remoteIP) })
+}
+
+func specSameOptString(a *string, b *string) bool {
+	if a == nil || b == nil {
+		return a == nil && b == nil
+	}
+	return *a == *b
+}
+
+func specDefaultScheme(s string) string {
+	if s == "" {
+		return "http"
+	}
+	return s
+}
